@@ -44,6 +44,10 @@ type Finding struct {
 	Status    string `json:"status"` // "known" | "fixed"
 	Commit    string `json:"commit,omitempty"`
 	Witness   string `json:"witness,omitempty"`
+	// DetailContains: fragments the obligation's detail must contain for this entry to apply. A known finding is one
+	// specific failing shape; a change that breaks the same construct in ANOTHER way (the slot now first-writer-wins
+	// instead of last-writer-wins) produces a different detail and is reported as a violation.
+	DetailContains []string `json:"detail_contains,omitempty"`
 }
 
 type Report struct {
@@ -170,12 +174,15 @@ func (r *Report) Finish(outDir string, findings []Finding) int {
 		case Discharged:
 			nDis++
 		default:
-			if f, ok := known[o.Key()]; ok {
+			if f, ok := known[o.Key()]; ok && detailMatches(f, o.Detail) {
 				o.Known = f.ID
 				nKnown++
 				if !seenKnown[f.ID+o.Key()] {
 					seenKnown[f.ID+o.Key()] = true
 					lines = append(lines, fmt.Sprintf("KNOWN-FINDING: property=%s %s %s: %s", r.Property, f.ID, o.Key(), f.What))
+					if os.Getenv("DCVERIF_DEBUG") != "" {
+						lines = append(lines, "  detail: "+o.Detail)
+					}
 				}
 				continue
 			}
@@ -296,4 +303,14 @@ func sanitize(s string) string {
 		out = out[:150]
 	}
 	return out
+}
+
+
+func detailMatches(f Finding, detail string) bool {
+	for _, frag := range f.DetailContains {
+		if !strings.Contains(detail, frag) {
+			return false
+		}
+	}
+	return true
 }
